@@ -65,7 +65,7 @@ theorem exec_ok (ins : Instr) (sh sh' : Shared) : exec ins sh = .ok sh' ↔
 macro "rw_fin" : tactic => `(tactic| (
   simp only [RInv, move, Shared.setC, Shared.setM, Shared.ctr, Shared.mtx, Prod.mk.injEq, Option.some.injEq, reduceCtorEq,
     false_and, and_false, true_and, and_true, ite_true, ite_false, Nat.reduceEqDiff, Nat.add_zero,
-    Option.map_none, Option.map_some, ne_eq] at *
+    Option.map_none, Option.map_some, ne_eq, implies_true, and_self] at * <;>
   omega))
 
 
